@@ -348,3 +348,63 @@ pub fn gen_prelude(rng: &mut crate::prng::Rng, kinds: &[i64], one_in: u64) -> i6
         0
     }
 }
+
+
+/// Generator half of the sparse-stream legs (C10, C11): a small recording whose payload table declares a
+/// 65535-byte event of a code the library does not know; the run itself is generated by SparseStream.
+pub fn gen_sparse(rng: &mut crate::prng::Rng, rec: &mut RecorderSpec) -> Vec<(&'static str, i64)> {
+    let code = 0x60 + rng.below(0x40) as u8;
+    rec.extras = Extras::default();
+    rec.extras.phantom = vec![(code, 65535)];
+    rec.irregular = Irregular::default();
+    if let Some(g) = rec.gecko.as_mut() {
+        g.len = g.len.min(3000);
+    }
+    vec![
+        ("sparse_code", code as i64),
+        // 32768 x 65536 = 2^31; 65535 x 65536 = 2^32 - 65536
+        ("sparse_count", *rng.pick(&[32767i64, 32768, 32769, 33000, 40000, 65535, 65535])),
+        ("sparse_sel", rng.below(1 << 30) as i64),
+        ("sparse_chunk", *rng.pick(&[0i64, 0, 1 << 16, 8192 + 7, 1 << 20])),
+    ]
+}
+
+pub struct SparseFile {
+    /// bytes before the hole, with the header's raw length patched to include the hole
+    pub head: Vec<u8>,
+    /// offset in the model's bytes where the hole goes (tail = bytes[at..])
+    pub at: usize,
+    pub count: u64,
+    pub code: u8,
+    pub chunk: usize,
+    pub old_raw: u64,
+}
+
+/// Run half: where the hole goes and what the header says. None for specs the generator never produces.
+pub fn sparse_setup(spec: &ScenarioSpec, m: &Model) -> Option<SparseFile> {
+    use crate::recorder::What;
+    let code = spec.knob("sparse_code") as u8;
+    if !spec.recorder.extras.phantom.contains(&(code, 65535)) || crate::layout::KNOWN_CODES.contains(&code) {
+        return None;
+    }
+    let mut count = spec.knob("sparse_count").max(1) as u64;
+    // the hole goes in front of one of the events after Game Start, up to and including Game End — never
+    // after Game End: what follows Game End is buffered as a whole by design, and a 2 GiB buffer is beyond
+    // the allocation cap this harness runs under, not a defect
+    let first_end = m.events.iter().position(|e| matches!(e.what, What::End { .. })).unwrap_or(m.events.len());
+    let mut spots: Vec<usize> = m.events.iter().take(first_end + 1).skip(2).map(|e| e.off).collect();
+    if m.end.is_none() {
+        spots.push(m.raw_end);
+    }
+    if spots.is_empty() {
+        return None;
+    }
+    let at = spots[spec.knob("sparse_sel") as usize % spots.len()];
+    let old_raw = (m.raw_end - crate::recorder::HEADER_LEN) as u64;
+    while old_raw + count * 65536 > u32::MAX as u64 {
+        count -= 1;
+    }
+    let mut head = m.bytes[..at].to_vec();
+    head[11..15].copy_from_slice(&((old_raw + count * 65536) as u32).to_be_bytes());
+    Some(SparseFile { head, at, count, code, chunk: spec.knob("sparse_chunk").max(0) as usize, old_raw })
+}
